@@ -532,6 +532,24 @@ Theorem C19_put_loop : forall r c a ind v mode, wfx r c a -> v <> [] ->
 Proof. exact put_list_spec. Qed.
 Print Assumptions C19_put_loop.
 
+(* put with ONE value, e.g. the bare int of m.put(ix, x): x mod 2^bits is written at the resolved position
+   for every x -- 0 included; "nothing to place" is ONLY the empty list/tuple (regenerated guard) *)
+Theorem C19_put_scalar_value : forall r c a ix x mode p i j, wfx r c a ->
+  put_ix (Z.of_nat (r * c)) mode ix = Some p -> (i < r)%nat -> (j < c)%nat ->
+  exists res, mput_list a [ix] [x] mode = Some res /\
+    el res i j = if Z.of_nat (i * c + j) =? p then trunc (bits a) x else el a i j.
+Proof. exact put_scalar_value. Qed.
+Print Assumptions C19_put_scalar_value.
+
+Theorem C19_gen_put_early_return :
+  (forall v : list Z,
+     put_early_return_gen true (Z.of_nat (length v)) = (match v with [] => true | _ => false end) /\
+     (forall n, put_early_return_gen false n = false) /\
+     put_int_wrapped_before_return_gen = true) /\
+  (forall a ind mode, mput_list a ind [] mode = Some a).
+Proof. exact (conj gen_put_early_return put_nothing). Qed.
+Print Assumptions C19_gen_put_early_return.
+
 (* dot(first, second) for EVERY pair of shapes: 1x1 operand -> scalar product (either side); two vectors
    (row or column, any combination) -> inner product if their lengths agree, else an error; otherwise
    matrix product if columns(first) = rows(second), else an error *)
